@@ -357,6 +357,7 @@ def EXPECTED_BRANCHES(ctx):
     for op in ('addE', 'subE', 'mulE', 'divE', 'rsubE', 'rdivE'):
         exp += ['stmt/bcasto/{}/{}/{}'.format(op, o, sh) for o in ('own-part', 'external')
                 for sh in ('distinct', 'shared')]
+    exp += ['stmt/pelemop/' + op for op in sorted(set(v for v in MODEL_OP.values() if v))]
     for f in ('mul', 'div'):
         for alias in ALIASES:
             exp += ['pmuldiv/{}/{}/{}'.format(f, alias, k) for k in ('tensor', 'product')]
@@ -940,6 +941,11 @@ BCASTO_OP = {'b_add': 'addE', 'b_radd': 'addE', 'b_sub': 'subE', 'b_rsub': 'rsub
              'bp_mul': 'mulE', 'bp_div': 'divE', 'bp_rdiv': 'rdivE'}
 
 
+def is_product(space):
+    import odl
+    return isinstance(space, odl.ProductSpace)
+
+
 def distinct_parts(x):
     """Parts of a power-space element as (distinct part objects, index of each part in them):
     identity, not value, decides (P.element([a, a, b]) has two distinct part objects)."""
@@ -1002,6 +1008,19 @@ def stmt_line(c, X, Y, fc):
     cc = fs(fc[0]) if fc[1] == 0 else fs(fc[0]) + ':' + fs(fc[1])
     return 'elemop op={} alias={} c={} n={} x={} y={}'.format(mop, alias, cc, len(X), lv(X),
                                                               lv(Y) if not alias else '-')
+
+
+def pstmt_line(c, fc):
+    """Protocol line for the statement-level model of an operator on a PRODUCT-space element
+    (Model/ElemOps.lean::Op.execP): elements by their leaf parts."""
+    mop = MODEL_OP.get(c['op'])
+    if mop is None:
+        return None
+    alias = 1 if c['okind'].startswith('xx') else 0
+    cc = fs(fc[0]) if fc[1] == 0 else fs(fc[0]) + ':' + fs(fc[1])
+    xp = '|'.join(lv(exact_list(q.asarray())) for q in leaf_parts(c['x']))
+    yp = '|'.join(lv(exact_list(q.asarray())) for q in leaf_parts(c['y']))
+    return 'pelemop op={} alias={} c={} x={}{}'.format(mop, alias, cc, xp, '' if alias else ' y=' + yp)
 
 
 def leaf_parts(x):
@@ -1605,6 +1624,8 @@ def run(ctx, deep=False):
             line = 'bcasto op={} own={} n={} ids={} parts={}{}'.format(
                 BCASTO_OP[c['op']], own, len(dpre[0]), ','.join(str(k) for k in ids),
                 '|'.join(lv(q) for q in dpre), '' if own >= 0 else ' other=' + lv(Y))
+        elif is_product(c['sp']) and c['op'] in MODEL_OP:
+            line = pstmt_line(c, fval(c['c']))
         else:
             line = stmt_line(c, X, Y, fval(c['c']))
         if line is None:
@@ -1618,6 +1639,11 @@ def run(ctx, deep=False):
             YP = exact_list(flat(c['y']))
             if c['op'] in BCAST_OP:
                 XP = [exact_list(flat(part)) for part in c['x']]
+            if line.startswith('pelemop'):
+                RP = dict(res=[exact_list(q.asarray()) for q in leaf_parts(res)],
+                          x=[exact_list(q.asarray()) for q in leaf_parts(c['x'])],
+                          y=[exact_list(q.asarray()) for q in leaf_parts(c['y'])],
+                          inplace=res is c['x'])
             if bo is not None:
                 XP = [exact_list(flat(q)) for q in bo['distinct']]
                 RP = [exact_list(flat(part)) for part in res]
@@ -1670,6 +1696,8 @@ def run(ctx, deep=False):
         elif line.startswith('bcast'):
             ctx.hit('stmt/bcast/{}/{}'.format(line.split()[1], 'own-part' if 'own=-1' not in line
                                               else 'external'))
+        elif line.startswith('pelemop'):
+            ctx.hit('stmt/pelemop/' + MODEL_OP[c['op']])
         else:
             ctx.hit('stmt/' + line.split()[1] if line.startswith('elemop') else 'stmt/ipow')
         if status != 'ok' or not ans.startswith('ok'):
@@ -1677,6 +1705,14 @@ def run(ctx, deep=False):
                 ctx.disagree(desc, status, ans[:200])
             continue
         f = dict(t.split('=', 1) for t in ans.split()[1:])
+        if line.startswith('pelemop'):
+            got = dict(res=[parse_cl(t) for t in f['res'].split('|')],
+                       x=[parse_cl(t) for t in f['x'].split('|')],
+                       y=[parse_cl(t) for t in f['y'].split('|')], inplace=f['inplace'] == '1')
+            if got != RP:
+                ctx.disagree(desc, {k: (v if k == 'inplace' else [q[:4] for q in v])
+                                    for k, v in RP.items()}, ans[:300])
+            continue
         if line.startswith('bcasto'):
             if [parse_cl(t) for t in f['res'].split('|')] != RP or \
                     [parse_cl(t) for t in f['parts'].split('|')] != XP or \
